@@ -15,15 +15,21 @@
 (*               RFC 5936 2.2 / RFC 1995 4, written without reference to    *)
 (*               the interpreter's variables.                               *)
 (*                                                                          *)
-(* Records are small integers: a non-SOA record is 1 + 4*n + 2*t + v (name  *)
-(* n, type t in 0..1, value v in 0..1), so the RRset key of r is            *)
-(* (r-1) \div 2; the zone's SOA with serial s is 100 + s.  All TTLs equal.  *)
+(* Records are small integers b + 1000*tt: the *base* b says owner, type and *)
+(* RDATA - a non-SOA base is 1 + 4*n + 2*t + v (name n, type t in 0..1,     *)
+(* value v in 0..1), so the RRset key of r is (b-1) \div 2; the zone's SOA  *)
+(* with serial s has base 100 + s - and tt is the index of the record's TTL.*)
+(* Zone content is a set of such records in which all records of one RRset  *)
+(* carry the same TTL (RFC 2181 5.2); the zone keeps one TTL per RRset      *)
+(* (Rrset.ttl).  Versions may differ in an RRset's TTL alone.  SOA records  *)
+(* always carry TTL index 0.                                                *)
 EXTENDS Octets, FiniteSets, TLC
 
 CONSTANTS Dev          \* named deviations switched on (DESIGN 2.6)
 
 DevNames == {"D_xfr_unreachable_qtype", "D_xfr_dup_rr_kept",
-             "D_zone_diff_not_net", "D_ixfr_soa_chain_unchecked"}
+             "D_zone_diff_not_net", "D_ixfr_soa_chain_unchecked",
+             "D_zone_diff_ttl_change_lost"}
 
 AXFR == 252
 IXFR == 251
@@ -32,11 +38,14 @@ OTHERQ == 1
 \* A SOA record is the pair (serial, variant): 100 + s is the zone's SOA with
 \* serial s, 200 + s a SOA with the same serial and other RDATA (MINIMUM
 \* differs).  Serials (version indexes) stay below 100.
+Base(r) == r % 1000                       \* owner, type, RDATA
+TtlOf(r) == r \div 1000                    \* TTL index
+WithTtl(r, t) == Base(r) + 1000 * t
 SoaRec(s) == 100 + s
-IsSoa(r) == r >= 100
-SoaSerial(r) == (r - 100) % 100
-SoaVariant(r) == IF r < 200 THEN r + 100 ELSE r - 100     \* same serial, other RDATA
-KeyOf(r) == (r - 1) \div 2
+IsSoa(r) == Base(r) >= 100
+SoaSerial(r) == (Base(r) - 100) % 100
+SoaVariant(r) == IF Base(r) < 200 THEN r + 100 ELSE r - 100     \* same serial, other RDATA
+KeyOf(r) == (Base(r) - 1) \div 2
 
 --------------------------------------------------------------------------
 (* small sequence / bag vocabulary *)
